@@ -35,7 +35,7 @@ def run(ck):
     ck.rule("C13.R4", "writer combinators route as their definition denotes", floor=9)
     ck.rule("C13.R9", "formatter options have the polarity of their name: nothing is written because a display_* flag is off", floor=4)
     ck.rule("C13.R8", "a formatting panic the caller caught does not silence the thread: get_default's re-entrancy flag is given back on unwinding (as C02.R6)", floor=3)
-    ck.rule("C13.R7", "every formatter takes the spans it names from the event's own scope (explicit parent / explicit root honoured), never from the thread's current span directly", floor=4)
+    ck.rule("C13.R7", "every formatter takes the spans it names from the event's own scope (explicit parent / explicit root honoured), never from the thread's current span directly", floor=5)
     ck.rule("C13.R6", "formatter/builder conversions keep every option: a rebuilt field comes from the same-named field", floor=60)
     ck.rule("C13.R5", "span lifecycle events: one on_event under the matching FmtSpan flag", floor=4)
     r1_r2(ck, F)
@@ -45,6 +45,7 @@ def run(ck):
     from rulekit.query import builder_carry_over
     builder_carry_over(ck, F, "C13.R6", ("tracing_subscriber::fmt::",))
     r7(ck, F)
+    r7b(ck, F)
     r9(ck, F)
     from rules import C02
     C02.r6(ck, F, rid="C13.R8")
@@ -311,7 +312,7 @@ def r5(ck, F):
             ck.bad("C13.R5", "%s emits its lifecycle event once, iff %s" % (m, flag), where(b.raw["sp"]), why, fn=b.path)
 
 
-def r7(ck, F):
+def r7(ck, F, rid="C13.R7"):
     """Which spans are "in scope" for a record is a property of the event: its explicit parent, the current span if it is
     contextual, nothing if it is an explicit root (span lifecycle records name the span itself as explicit parent).
     FmtContext::event_scope / parent_span (Context::event_span) implement exactly that three-way choice; a formatter that
@@ -325,7 +326,7 @@ def r7(ck, F):
         m = i["methods"].get("format_event")
         b = F.body(m) if m else None
         kind = i["self_ty"].split("<", 1)[1].split(",")[0].rsplit("::", 1)[-1]
-        if not ck.anchor("C13.R7", "format_event for Format<%s>" % kind, b):
+        if not ck.anchor(rid, "format_event for Format<%s>" % kind, b):
             continue
         n += 1
         aware, naive = [], []
@@ -341,10 +342,30 @@ def r7(ck, F):
                     naive.append("Event::%s at %s" % (last, where(t["sp"])))
         key = "Format<%s>::format_event resolves the record's spans through the event-aware lookup" % kind
         if aware and not naive:
-            ck.ok("C13.R7", key, fn=b.path, detail=sorted(set(aware)))
+            ck.ok(rid, key, fn=b.path, detail=sorted(set(aware)))
         else:
-            ck.bad("C13.R7", key, where(b.raw["sp"]), "uses %s%s: span lifecycle records and events with an explicit parent or an explicit root would name the wrong spans"
+            ck.bad(rid, key, where(b.raw["sp"]), "uses %s%s: span lifecycle records and events with an explicit parent or an explicit root would name the wrong spans"
                    % ("; ".join(naive) or "no span lookup", "" if aware else " and none of event_scope/parent_span"), fn=b.path)
+
+
+def r7b(ck, F, rid="C13.R7"):
+    """The same for everything else the formatters are made of (the JSON span list is serialised by a helper type, not by
+    format_event itself): no function under fmt/format/ asks the context for the thread's current span."""
+    bad = []
+    n = 0
+    for x in F.body_list:
+        if x.crate != "tracing_subscriber" or "src/fmt/format/" not in str(x.raw["sp"].get("f", "")):
+            continue
+        n += 1
+        for bb, t in x.calls():
+            p = t["callee"].get("path") or ""
+            if ("FmtContext" in p or "subscribe::context::Context" in p) and p.rsplit("::", 1)[-1] in ("lookup_current", "current_span"):
+                bad.append("%s at %s" % (p.rsplit("::", 1)[-1], where(t["sp"])))
+    key = "no formatter helper reads the thread's current span instead of the event's scope"
+    if bad:
+        ck.bad(rid, key, bad[0].split(" at ")[1], "; ".join(sorted(set(bad))) + ": a record for an event with an explicit parent (every span lifecycle record is one) would list the wrong spans")
+    else:
+        ck.ok(rid, key, detail="%d bodies under fmt/format/" % n)
 
 
 def r9(ck, F):
